@@ -13,7 +13,8 @@ used only where stated (`partial_uses_same_convention`, `injectLib_eq_inject`, t
 * calling convention — `bindArgs_eq_bindSpec` (C04Lemmas), `bindArgs_spec`, `bindArgs_spec_nodup`, `bindArgs_missing_null`,
   `bindArgs_surplus_ignored`, `bindArgs_rest_fresh`;
 * scoping — `lookup_order`, `builtin_never_shadows`, `eval_variable`, `eval_call`, `local_assign_writes_locals`,
-  `toplevel_assign_writes_globals`, `call_starts_from_fresh_locals`, `globals_frame`, `assign_local_only`;
+  `toplevel_assign_writes_globals`, `call_starts_from_fresh_locals`, `globals_frame`, `toplevel_frame`,
+  `assign_local_only`, `call_leaves_globals`;
 * host globals — `inject_preserves_host`, `inject_keeps_host_order`, `inject_eq_spec` (C04Lemmas), `injectLib_eq_inject`,
   `funcdef_overrides_library`;
 * one entry point — `callbacks_use_same_convention`, `partial_uses_same_convention`.
@@ -313,6 +314,15 @@ theorem globals_frame (cfg : Config W) (S : Name → Prop) (I : Prop) (hF : Fram
     (∀ f args (st : State W), OutRel (SameOutside S) st.globals (callValue cfg fuel f args st)) := by
   have h := frameAt hF (respects_sameOutside S) fuel
   exact ⟨fun P l base cache pc st hP => h.2.1 P (some l) base cache pc st hP, h.1⟩
+
+/-- **no leaked locals.**  The same frame for a whole top-level program (`locals = none`): if `S` contains the names the
+program assigns at top level, the names of all `function` statements and the names the library may `globalSet`, then after
+the run every name outside `S` is bound (or unbound) as before — whatever the functions assigned to their locals and
+parameters, none of it is in the globals. -/
+theorem toplevel_frame (cfg : Config W) (S : Name → Prop) (I : Prop) (hF : Frame cfg S I) (fuel : Nat)
+    (P : List Stmt) (hP : ∀ s ∈ P, StmtOK S I false s) (base : Option String) (st : State W) :
+    ResRel (SameOutside S) st.globals (execute cfg fuel P base st) :=
+  (frameAt hF (respects_sameOutside S) fuel).2.1 P none base [] 0 { st with count := 0 } hP
 
 /-- the body contains no `function` and no `include` statement -/
 def NoGlobalStmt : Stmt → Prop
@@ -678,18 +688,18 @@ example : obs (execute (xcfg host [(0, lenDef)]) 50
 /-! ### call-backs and partial applications bind parameters like direct calls -/
 
 /-- `p(a, b...)` logs its parameters; called directly, through a variable, through `systemPartial`, and as the predicate
-of `arrayIndexOf` (one argument per element) -/
+of `arrayIndexOf` (one argument per element; the first truthy result, at index 1, ends the search) -/
 def pDef : FuncDef :=
   { name := nm "p", args := [nm "a", nm "b"], lastArgArray := true,
-    body := [logE (va "a"), logE (va "b"), .ret (some (.binary .eq (va "a") (.number 2)))] }
+    body := [logE (va "a"), logE (va "b"), .ret (some (va "a"))] }
 example : (obs (execute (xcfg host [(0, pDef)]) 200
       [.function 0 (nm "p") [nm "a", nm "b"] true false pDef.body,
        .expr none (callE "p" [.number 1, .number 2, .number 3]),
        .expr (some (nm "q")) (va "p"), .expr none (callE "q" []),
        .expr (some (nm "pp")) (callE "systemPartial" [va "p", .number 8, .number 9]), .expr none (callE "pp" [.number 10]),
-       .expr (some (nm "ix")) (callE "arrayIndexOf" [callE "arrayNew" [.number 1, .number 2, .number 3], va "p"]),
+       .expr (some (nm "ix")) (callE "arrayIndexOf" [callE "arrayNew" [.number 0, .number 7, .number 3], va "p"]),
        .ret (some (va "ix"))] none (start []))).log
-    = ["1", "[2,3]", "null", "[]", "8", "[9,10]", "1", "[]", "2", "[]"] := by decide +kernel
+    = ["1", "[2,3]", "null", "[]", "8", "[9,10]", "0", "[]", "7", "[]"] := by decide +kernel
 
 end Examples
 
